@@ -817,6 +817,11 @@ def judge_c10(ops, impl):
                 bad.append((i, 'strict URL built %r although a parameter is missing or violates its constraint' % got))
             if ok and valid and got != dom + want:
                 bad.append((i, 'strict URL built %r, expected %r' % (got, dom + want)))
+            # live route, every parameter present and satisfying its constraint: strict building must succeed
+            # (regexp rules with alternation are excluded: leftmost-first matching may prefer a shorter alternative)
+            if not ok and valid and not any(s.kind == 'rx' and (b'|' in s.rule or b'?' in s.rule) for s in segs) \
+                    and all(all(c < 0x80 for c in ps[s.name]) for s in segs if s.kind != 'str') and obs != 'unsupported':
+                bad.append((i, 'strict URL refused %r with params %r although the route is live and every value satisfies its constraint: %s' % (pattern, ps, obs)))
     return bad
 
 def cors_expect(cfg, method, path, hdrs, node_methods, allow, served):
